@@ -39,9 +39,17 @@ fn assigned_vars(stmts: &[syn::Stmt]) -> Vec<String> {
         }
         fn visit_expr_method_call(&mut self, m: &'ast syn::ExprMethodCall) {
             let name = m.method.to_string();
-            if matches!(name.as_str(), "push" | "push_str" | "clear" | "resize" | "truncate" | "insert" | "pop" | "extend" | "extend_from_slice" | "set" | "store_le" | "next") {
+            if matches!(name.as_str(), "push" | "push_str" | "clear" | "resize" | "truncate" | "insert" | "pop" | "extend" | "extend_from_slice" | "set" | "store_le" | "next" | "copy_from_slice" | "read") {
                 if let Some(n) = V::root(&m.receiver) {
                     self.add(n);
+                }
+                if name == "read" {
+                    // Read::read(&mut self, buf): the buffer argument is written
+                    if let Some(a) = m.args.first() {
+                        if let Some(n) = V::root(a) {
+                            self.add(n);
+                        }
+                    }
                 }
             }
             syn::visit::visit_expr_method_call(self, m);
@@ -285,6 +293,22 @@ impl<'g> FnCx<'g> {
                             return unsupported("let-else", l.span());
                         }
                         let e = &*init.expr;
+                        // `let x: &mut T = &mut y;` is another name for y
+                        if let (syn::Expr::Reference(r), syn::Pat::Ident(pi)) = (strip_paren(e), pat) {
+                            if r.mutability.is_some() {
+                                if let syn::Expr::Path(pp) = strip_paren(&r.expr) {
+                                    if pp.path.segments.len() == 1 && self.lookup(&pp.path.segments[0].ident.to_string()).is_some() {
+                                        let target = self.lookup(&pp.path.segments[0].ident.to_string()).unwrap();
+                                        if let Some(dt) = &declared_ty {
+                                            let t = self.u.unify(dt, &target.ty)?;
+                                            self.set_ty(&pp.path.segments[0].ident.to_string(), t);
+                                        }
+                                        self.aliases.insert(pi.ident.to_string(), pp.path.segments[0].ident.to_string());
+                                        return self.stmts(rest, k);
+                                    }
+                                }
+                            }
+                        }
                         // `let view = bytes.view_bits_mut::<Lsb0>();` introduces an alias, not a value
                         if let (syn::Expr::MethodCall(mc), syn::Pat::Ident(pi)) = (strip_paren(e), pat) {
                             if mc.method == "view_bits_mut" {
@@ -350,6 +374,13 @@ impl<'g> FnCx<'g> {
             "vec" => {
                 if m.tokens.is_empty() {
                     Ok(syn::parse_quote!(Vec::new()))
+                } else if let Ok((v, n)) = m.parse_body_with(|input: syn::parse::ParseStream| {
+                    let v: syn::Expr = input.parse()?;
+                    input.parse::<syn::Token![;]>()?;
+                    let n: syn::Expr = input.parse()?;
+                    Ok((v, n))
+                }) {
+                    Ok(syn::parse_quote!(__rs2lean_vec_repeat(#v, #n)))
                 } else {
                     let elems = m
                         .parse_body_with(syn::punctuated::Punctuated::<syn::Expr, syn::Token![,]>::parse_terminated)
@@ -441,6 +472,24 @@ impl<'g> FnCx<'g> {
                 steps.push(setter(&format!("{}.set {} {}", paren_atom(&cur), paren_atom(&i.atom), paren_atom(&v.atom))));
                 let rest_text = self.stmts(rest, k)?;
                 Ok(wrap(&steps, rest_text))
+            }
+            syn::Expr::Assign(a)
+                if matches!(strip_paren(&a.right), syn::Expr::If(_) | syn::Expr::Match(_) | syn::Expr::Block(_))
+                    && (has_escape(&a.right) || self.mutates_state(&a.right))
+                    && matches!(strip_paren(&a.left), syn::Expr::Field(_) | syn::Expr::Path(_)) =>
+            {
+                // `place = match … { … return … }`: every branch that produces a value assigns it and goes on
+                let (_, pty, _) = self.place(&a.left)?;
+                let left = (*a.left).clone();
+                self.expr_k(&a.right, Some(&pty), &|cx, v| {
+                    let v = v.ok_or("unsupported: assignment from a branch without a value")?;
+                    let (_, pty2, setter) = cx.place(&left)?;
+                    cx.u.unify(&pty2, &v.ty)?;
+                    let mut steps = v.steps.clone();
+                    steps.push(setter(&v.atom));
+                    let rest_text = cx.stmts(rest, k)?;
+                    Ok(wrap(&steps, rest_text))
+                })
             }
             syn::Expr::Assign(a) if matches!(strip_paren(&a.left), syn::Expr::Field(_)) => {
                 // `x.f = e`: structure update
